@@ -255,7 +255,7 @@ func runC12(c *Ctx) {
 	rows := genRows(r, te, n, genOpts{NoHuge: true, SmallLists: true})
 	ed := &c12edits{r: r, budget: 1 + r.Intn(4), obs: map[string]bool{}}
 	dstType := ed.derive(te.Type, "group")
-	via := []string{"reader_with_schema", "convert_rowgroup_rows", "convert_row_reader", "copy_rows", "merge_with_schema", "convert_rowgroup_chunks", "sorted_merge_with_schema"}[c.Case%7]
+	via := []string{"reader_with_schema", "convert_rowgroup_rows", "convert_row_reader", "copy_rows", "merge_with_schema", "convert_rowgroup_chunks", "sorted_merge_with_schema", "copy_rows_implicit"}[c.Case%8]
 	if via == "sorted_merge_with_schema" {
 		// two sorted files that overlap only partially, with long lone stretches and small
 		// misaligned pages: the merge planner slices row-range views of converted row groups
@@ -371,6 +371,24 @@ func runC12(c *Ctx) {
 						prows, err = rowGroupRows(b, 64)
 					}
 				}
+				if err != nil {
+					rerr = err
+					return
+				}
+				reconstruct(prows)
+			}
+		case "copy_rows_implicit":
+			// CopyRows is handed a reader and a writer that both know their schema and has to insert the conversion itself
+			for _, rg := range f.RowGroups() {
+				rr := rg.Rows()
+				b := parquet.NewBuffer(dstSchema)
+				_, err := parquet.CopyRows(b, rr)
+				rr.Close()
+				if err != nil {
+					rerr = err
+					return
+				}
+				prows, err := rowGroupRows(b, 64)
 				if err != nil {
 					rerr = err
 					return
